@@ -1099,7 +1099,18 @@ impl<T: Transport + 'static> SyncEngine<T> {
                         let delete_result = if already_gone {
                             Ok(())
                         } else {
-                            transferrer.delete(&task.dest_path, is_dir).await
+                            match transferrer.delete(&task.dest_path, is_dir).await {
+                                // With several workers the delete task of a stale directory
+                                // (remove_dir_all) and those of its entries run concurrently: the
+                                // loser of the race finds the entry gone in the middle of its call.
+                                // The deletion is complete either way.
+                                Err(crate::error::SyncError::Io(ref e))
+                                    if e.kind() == std::io::ErrorKind::NotFound =>
+                                {
+                                    Ok(())
+                                }
+                                other => other,
+                            }
                         };
 
                         match delete_result {
